@@ -5,23 +5,26 @@
    are covered by the PanicSites discharge table and by the oracle O-C16 only (C16 is partial there). *)
 From VV.EXP Require Import Display Names SiteTables DisplayP NamesP.
 
-(* D3: Display is NOT total *)
-Theorem C16_display_total_refuted : exists a, display a = Panic.
-Proof. exact display_total_refuted. Qed.
-Print Assumptions C16_display_total_refuted.
-Check C16_display_total_refuted : exists a, display a = Panic.
-
-(* exact characterisation of the panicking inputs: a RawSql longer than 50 bytes whose byte 47 is a
-   continuation byte *)
-Theorem C16_display_panic_iff : forall a, display a = Panic <-> rawsql_ok a = false.
-Proof. exact display_panic_iff. Qed.
-Print Assumptions C16_display_panic_iff.
-Check C16_display_panic_iff : forall a, display a = Panic <-> rawsql_ok a = false.
-
-Theorem C16_display_total : forall a, rawsql_ok a = true -> exists s, display a = Txt s.
+(* Display is total (after fix b4532c3 the RawSql arm cuts at the largest char boundary <= 47): for ALL actions *)
+Theorem C16_display_total : forall a, exists s, display a = Txt s.
 Proof. exact display_total. Qed.
 Print Assumptions C16_display_total.
-Check C16_display_total : forall a, rawsql_ok a = true -> exists s, display a = Txt s.
+Check C16_display_total : forall a, exists s, display a = Txt s.
+
+(* ... and the text is the one the old byte slice produced wherever that did not panic, in particular for ASCII *)
+Theorem C16_display_rawsql_unchanged : forall sql,
+  (Nat.leb (String.length sql) 50 || is_char_boundary sql 47)%bool = true ->
+  display (RawSql sql) = display_rawsql_before_fix sql.
+Proof. exact display_rawsql_unchanged. Qed.
+Print Assumptions C16_display_rawsql_unchanged.
+Check C16_display_rawsql_unchanged : forall sql,
+  (Nat.leb (String.length sql) 50 || is_char_boundary sql 47)%bool = true ->
+  display (RawSql sql) = display_rawsql_before_fix sql.
+
+Theorem C16_display_rawsql_ascii : forall sql, all_ascii sql = true -> display (RawSql sql) = display_rawsql_before_fix sql.
+Proof. exact display_rawsql_ascii. Qed.
+Print Assumptions C16_display_rawsql_ascii.
+Check C16_display_rawsql_ascii : forall sql, all_ascii sql = true -> display (RawSql sql) = display_rawsql_before_fix sql.
 
 (* the CLI's own renderer truncates by characters and has no panicking arm *)
 Theorem C16_format_action_total : forall a, exists s, format_action a = Txt s.
@@ -51,20 +54,22 @@ Print Assumptions C16_resolve_fk_fuel_mono_partial.
 Check C16_resolve_fk_fuel_mono_partial : forall s fuel rt rcs r,
   resolve_fk_target fuel s rt rcs = Some r -> forall fuel', (fuel <= fuel')%nat -> resolve_fk_target fuel' s rt rcs = Some r.
 
-(* the discharge table names exactly these reachable panics *)
-Theorem C16_known_panic_sites : known_panic_ids = ["C16-display-rawsql-slice"; "C16-seaorm-fk-cycle"].
+(* the discharge table names exactly this reachable panic (the Display slice is guarded since b4532c3) *)
+Theorem C16_known_panic_sites : known_panic_ids = ["C16-seaorm-fk-cycle"].
 Proof. vm_compute. reflexivity. Qed.
 Print Assumptions C16_known_panic_sites.
-Check C16_known_panic_sites : known_panic_ids = ["C16-display-rawsql-slice"; "C16-seaorm-fk-cycle"].
+Check C16_known_panic_sites : known_panic_ids = ["C16-seaorm-fk-cycle"].
 
-(* the full-strength statement for the modelled stages (a definition, not a claim): FALSE, see the refutations *)
+(* the full-strength statement for the modelled stages (a definition, not a claim): its first half is now
+   C16_display_total, its second half is FALSE (FK cycles) *)
 Definition C16_full_statement : Prop :=
   (forall a, exists s, display a = Txt s)
   /\ (forall s t, exists d, members s t = Ok d).
 
-(* non-vacuity *)
+(* non-vacuity: the former D3 witness now renders, cut in front of the 2-byte character *)
 Example C16_nonvacuous :
-  rawsql_ok (RawSql "SELECT 1") = true /\ rawsql_ok d3_witness = false
+  display d3_witness = Txt ("RawSql: " +++ string_of_list_ascii (repeat "x"%char 46) +++ "...")
+  /\ all_ascii "SELECT 1" = true
   /\ display (ModifyColumnComment "t" "c" (Some "0123456789012345678901234567890")) = Txt "ModifyColumnComment: t.c -> '012345678901234567890123456...'"
   /\ resolve_fk_target 3 [d14_user; d14_post] "user" ["id"] = Some ("user", ["id"]).
 Proof. repeat split; vm_compute; reflexivity. Qed.
